@@ -5,7 +5,7 @@
    (t4 a p q r s = a(27p+9q+3r+s), mat6 a i j = a(6i+j), mat3 a i j = a(3i+j)). *)
 From Coq Require Import Reals ZArith List.
 From PV Require Import Num NumR Model_voigt Model_decomp Proofs_tensors_alg Proofs_tensors_rot
-  Proofs_tensors_maps Proofs_tensors_proj Proofs_tensors_polar Inst_tensors Proofs_tensors_polar2.
+  Proofs_tensors_maps Proofs_tensors_proj Proofs_tensors_polar Inst_polar Proofs_tensors_polar2.
 From PV.gen Require Import Gen_tensors Gen_polar.
 Import ListNotations.
 Open Scope R_scope.
@@ -200,8 +200,12 @@ Qed.
 Theorem C11_polar_left_is_generated : forall M U S Vh : arr NumR,
   k_polar_decompose_left M U S Vh = polar_left U S Vh.
 Proof. exact polar_left_inst. Qed.
-Theorem C11_polar_right_is_generated : forall M U S Vh : arr NumR,
-  k_polar_decompose_right M U S Vh = polar_right M S Vh.
+(* the right variant is generated from whichever of the two versions of the source is current: the original
+   `M @ inv(U_m), U_m` (Model_decomp.polar_right; raises for singular M -- finding) or the repaired `U @ Vh, U_m`
+   (Model_decomp.polar_right_repaired, fixes/C11-polar-right-singular.patch) *)
+Theorem C11_polar_right_is_generated :
+  (forall M U S Vh : arr NumR, k_polar_decompose_right M U S Vh = polar_right M S Vh) \/
+  (forall M U S Vh : arr NumR, k_polar_decompose_right M U S Vh = Ok (polar_right_repaired U S Vh)).
 Proof. exact polar_right_inst. Qed.
 
 (* the whole polar clause on what polar_decompose(M) returns, over the SVD oracle hypotheses
@@ -231,37 +235,43 @@ Theorem C11_polar_stretch_not_input_when_indefinite : forall M U S Vh : arr NumR
   (exists x, quad (mat3 M) x < 0) -> ~ eq2b (mat3 (snd (polar_left U S Vh))) (mat3 M).
 Proof. exact polar_stretch_not_input_when_indefinite. Qed.
 
-(* right variant on the generated code: a value exactly when det M <> 0 (then R U_m = M,
-   R^T R = I, U_m symmetric positive semi-definite); for a singular M it raises LinAlgError *)
+(* right variant on the generated code, for either version of the source: a returned pair has R U_m = M,
+   R^T R = I, U_m symmetric positive semi-definite; if the call raises it is LinAlgError and M is singular *)
 Theorem C11_polar_right_generated : forall M U S Vh : arr NumR,
-  orth (mat3 U) -> orth (mat3 Vh) -> orth (tr3 (mat3 Vh)) -> (forall i, (i < 3)%nat -> 0 <= S i) ->
+  orth (mat3 U) -> orth (tr3 (mat3 U)) -> orth (mat3 Vh) -> orth (tr3 (mat3 Vh)) -> (forall i, (i < 3)%nat -> 0 <= S i) ->
   eq2b (mat3 M) (mm (mat3 U) (mm (diagm S) (mat3 Vh))) ->
   match k_polar_decompose_right M U S Vh with
   | Ok (R, Ur) =>
-      det3 M <> 0 /\ eq2b (mm (mat3 R) (mat3 Ur)) (mat3 M) /\ orth (mat3 R) /\
+      eq2b (mm (mat3 R) (mat3 Ur)) (mat3 M) /\ orth (mat3 R) /\
       sym3 (mat3 Ur) /\ forall x, 0 <= quad (mat3 Ur) x
   | Err e => e = ValueError /\ det3 M = 0
   end.
 Proof. exact polar_right_generated. Qed.
+(* the ORIGINAL version (Model_decomp.polar_right): a value exactly when det M <> 0 *)
 Theorem C11_polar_right_ok_iff : forall M U S Vh : arr NumR,
   orth (mat3 U) -> orth (mat3 Vh) ->
   eq2b (mat3 M) (mm (mat3 U) (mm (diagm S) (mat3 Vh))) ->
   (exists Rr, polar_right M S Vh = Ok (Rr, matmul3 (transpose3 Vh) (matmul3 (diag3 S) Vh))) <-> det3 M <> 0.
 Proof. exact polar_right_ok_iff. Qed.
-(* finding (open): the property wants a decomposition of EVERY real 3x3 matrix; the right
-   variant refuses the singular ones *)
+(* finding about the original version: the property wants a decomposition of EVERY real 3x3 matrix;
+   it refuses the singular ones *)
 Theorem C11_polar_right_singular_refuted : forall M U S Vh : arr NumR,
   orth (mat3 U) -> orth (mat3 Vh) ->
   eq2b (mat3 M) (mm (mat3 U) (mm (diagm S) (mat3 Vh))) ->
   det3 M = 0 -> polar_right M S Vh = Err ValueError.
 Proof. exact polar_right_singular_raises. Qed.
-(* the repair (fixes/C11-polar-right-singular.patch): R = U Vh with the same U_m works for every M *)
+(* the REPAIRED version (Model_decomp.polar_right_repaired = (U Vh, U_m), fixes/C11-polar-right-singular.patch):
+   orthogonal on both sides and R U_m = M for EVERY M, no determinant hypothesis; with it the call never raises *)
 Theorem C11_polar_right_repaired : forall M U S Vh : arr NumR,
   orth (mat3 U) -> orth (tr3 (mat3 U)) -> orth (mat3 Vh) -> orth (tr3 (mat3 Vh)) ->
   eq2b (mat3 M) (mm (mat3 U) (mm (diagm S) (mat3 Vh))) ->
-  let R := matmul3 U Vh in let Um := matmul3 (transpose3 Vh) (matmul3 (diag3 S) Vh) in
+  let '(R, Um) := polar_right_repaired U S Vh in
   (orth (mat3 R) /\ orth (tr3 (mat3 R))) /\ eq2b (mm (mat3 R) (mat3 Um)) (mat3 M).
-Proof. exact polar_right_repaired. Qed.
+Proof. exact polar_right_repaired_spec. Qed.
+Theorem C11_polar_right_repaired_total : forall M U S Vh : arr NumR,
+  (forall M' U' S' Vh' : arr NumR, k_polar_decompose_right M' U' S' Vh' = Ok (polar_right_repaired U' S' Vh')) ->
+  exists R Ur, k_polar_decompose_right M U S Vh = Ok (R, Ur).
+Proof. exact polar_right_repaired_total. Qed.
 
 (* non-vacuity of the singular / indefinite hypotheses: the exactly symmetric, singular,
    indefinite M = diag(1, -1, 0) with the SVD U = diag(1, -1, 1), S = (1, 1, 0), Vh = I *)
